@@ -1199,7 +1199,11 @@ def _e2e_outcome(d, case):
             else:
                 seq.append(["send", t[2]])
         elif t[0] == "close":
-            conns.setdefault(t[1], []).append(["close", t[2]])
+            # closing a connection that is already closed (or half-closing it twice) with nothing in between is not
+            # observable by any peer: keep one; a full close after a half close stays
+            seq = conns.setdefault(t[1], [])
+            if not (seq and seq[-1][0] == "close" and (seq[-1][1] is False or seq[-1][1] == t[2])):
+                seq.append(["close", t[2]])
         elif t[0] == "open":
             conns.setdefault(t[1], []).append(["open"])
     return {"flows": flows, "conns": {str(k): v for k, v in sorted(conns.items())},
